@@ -54,7 +54,7 @@ def c14():
     for i in range(13, 21):
         for o in range(i + 1, 33):
             if (i, o) in quick: tiers = ("quick", "thorough")
-            elif i <= 16 and ((o - i) % 3 == 1 or o in (24, 25)) and o <= 25: tiers = ("thorough",)
+            elif i <= 16 and ((o - i) % 3 == 1 or o in (24, 25)) and o <= 25 and (i <= 15 or o <= 20): tiers = ("thorough",)
             else: continue
             us = {"read_literal": i + 1, "safe_copy": o + 1, "overrun_copy": o // 8 + 2, "fast_copy": o // 8 + 2, "decompress": i // 3 + 2,
                   "ref_ext": i + 1, "ref_copy_lit": i + 1, "ref_copy_match": o + 1, "ref_lz4": i // 3 + 2, "vh_bytes": i + 1, "vh_lz4": o + 1}
@@ -64,7 +64,7 @@ def c14():
 # ------------------------------------------------------------------------------------------- C07
 META["C07"] = {
     "bounds": "(a) each opcode body 0x00-0x18, 0x30-0x32, 0x3E-0x41, both code types, ALL 32-bit operand values and parameter bytes, any stack depth arity..1023; (c) all 67 opcode_table rows",
-    "outside": "DIV quotient VALUE (two 32-bit dividers / a 64-bit multiplier: no verdict within 240 s on minisat, cadical, kissat, z3, cvc5 with and without bv-as-int; its fail-safe clause, operand order of the guards and stack movement ARE decided for all operands); whole-text shaping equality of the two interpreter builds (only the driver-equivalence lemma is decided); programs longer than the stated instruction bound",
+    "outside": "DIV quotient VALUE outside the signed 16-bit operand range (two 32-bit dividers / a 64-bit multiplier: no verdict within 240 s on minisat, cadical, kissat, z3, cvc5 with and without bv-as-int; its fail-safe clause, operand order of the guards and stack movement ARE decided for all operands); whole-text shaping equality of the two interpreter builds (only the driver-equivalence lemma is decided); programs longer than the stated instruction bound",
     "assumptions": ["entry invariant: operands present on the stack (loader depth analysis, decided in C01/C02) and 0 <= sp-sb < STACK_MAX",
                     "opcodes 0x3E/0x3F follow the engine's numbering (BITOR, BITAND); doc/OpCodes.adoc lists them swapped (DESIGN 7)"],
 }
@@ -79,5 +79,39 @@ def c07():
                 if op == 0x09: defs["DIVMODE"] = 0      # fail-safe clause + sp/dp movement on ALL operands; quotient value: see META outside
                 qs.append(Q(f"op{op:02x}_impl{impl}_d{d}", "C07_opcodes.cpp", "vh_opcode", defs, unwind=6,
                             cbmc_flags=["--max-field-sensitivity-array-size", "2048"] + (["--sat-solver", "cadical"] if op == 0x08 else [])))
+    qs.append(Q("op09_quotient_16bit", "C07_opcodes.cpp", "vh_opcode", {"OPC": 9, "IMPL": 0, "DEPTHSEL": 1, "DIVMODE": 2}, unwind=6,
+                cbmc_flags=["--max-field-sensitivity-array-size", "2048", "--sat-solver", "cadical"], note="DIV quotient value for operands in the signed 16-bit range"))
     qs.append(Q("optable", "C07_opcodes.cpp", "vh_optable", unwind=4))
     return qs
+
+# ------------------------------------------------------------------------------------------- C03
+META["C03"] = {
+    "bounds": "one primitive from an arbitrary INV_stream state: NS live slots (quick 1..4, thorough ..6) laid out in an array, 1 spare slot on the free list, symbolic flags/bidi classes/associations, symbolic VM window (start,len,context) over the stream; glyph cache of 2 glyphs x 4 attributes",
+    "outside": "streams longer than the bound inside a single primitive; composition of primitives is covered inductively through INV_stream; Pass-level rule loop: see C02",
+    "assumptions": ["slot addresses are only compared for equality by the code under test (array order = stream order)",
+                    "pre-state satisfies INV_stream (and INV_forest / INV_assoc where named in the harness)"],
+}
+WINDOWED = {"vh_delete_gc", "vh_insert", "vh_put_copy", "vh_temp_copy", "vh_next", "vh_assoc_op", "vh_attach", "vh_attr_set"}
+def slot_queries(pid, entries, quickmax, thoroughmax, extra=None, nmin=1, extra_unwind=None, src="slots.cpp"):
+    qs = []
+    for e in entries:
+        for n in range(nmin, thoroughmax + 1):
+            tiers = ("quick", "thorough") if n <= quickmax else ("thorough",)
+            lib = {"reverseSlots": n + 2, "collectGarbage": n + 3, "freeSlot": n + 2, "associateChars": n + 2, "appendSlot": n + 2, "linkClusters": n + 2,
+                   "sibling": n + 2, "child": n + 2, "removeChild": n + 2, "setAttr": n + 3, "finalise": n + 2, "positionSlots": n + 2, "floodShift": n + 2,
+                   "_ZN9graphite24Slot7siblingEPS0_.recursion": n + 2}
+            lib.update({"vh_.*": (n + 4) * (n + 4), "inv_.*": (n + 4) * (n + 4)})   # harness loops have concrete trip counts; nested ones share one cbmc counter
+            if extra_unwind: lib.update(extra_unwind)
+            wins = [(0, n, c) for c in range(n)] if e in WINDOWED else [None]
+            if e in WINDOWED and n >= 3: wins += [(1, n - 1, 0), (1, 1, 0), (0, n - 1, n - 2)]   # windows that do not cover the whole stream
+            for wdw in wins:
+                d = {"NS": n}
+                if extra: d.update(extra)
+                name = f"{e[3:]}_n{n}"
+                if wdw: d.update({"WSTART": wdw[0], "WLEN": wdw[1], "WCTX": wdw[2]}); name += f"_w{wdw[0]}{wdw[1]}{wdw[2]}"
+                qs.append(Q(name, src, e, d, unwind=n + 5, unwindset=lib, tiers=tiers, ub=True))
+    return qs
+@prop("C03")
+def c03():
+    return slot_queries("C03", ["vh_reverse", "vh_delete_gc", "vh_insert", "vh_put_copy", "vh_temp_copy", "vh_next", "vh_append", "vh_associate"], 3, 5) + \
+           [Q("setglyph", "slots.cpp", "vh_setglyph", {"NS": 1}, unwind=8)]
